@@ -1,10 +1,136 @@
 import SkaModel.Core.Proto
+import SkaModel.Core.Label
 
-/-! Driver commands for the `Label` model family. One self-contained case per line. -/
+/-! Driver commands for the `Label` model family (C16, C09). One self-contained case per line.
+
+Tokens: a label is `n<int>` (number with order-preserving integer code), `nan`, `s<int>` (string
+with order-preserving code), `none`; a `missing_label` of unsupported Python type is `bad`;
+an array is `<kind:n|s|o> <rows> <cols|-> <labels…>` (row-major). -/
 
 namespace Ska.Drv.Label
-open Ska Ska.Proto
+open Ska Ska.Proto Ska.Label
 
-def handlers : List (String × P String) := []
+def parseLbl? (t : String) : Option (Lbl Int) :=
+  if t = "nan" then some .nanv
+  else if t = "none" then some .none_
+  else if t.startsWith "n" then (t.drop 1).toInt?.map Lbl.num
+  else if t.startsWith "s" then (t.drop 1).toInt?.map Lbl.str
+  else none
+
+def lbl : P (Lbl Int) := do
+  match parseLbl? (← tok) with
+  | some l => pure l
+  | none => failure
+
+def mlArg : P (Option (Lbl Int)) := do
+  let t ← tok
+  if t = "bad" then pure none
+  else match parseLbl? t with
+    | some l => pure (some l)
+    | none => failure
+
+def kind : P ArrKind := do
+  match (← tok) with
+  | "n" => pure .number
+  | "s" => pure .string
+  | "o" => pure .object
+  | _ => failure
+
+def arr : P (Arr Int) := do
+  let k ← kind
+  let r ← nat
+  let ct ← tok
+  if ct = "-" then
+    let f ← many lbl r
+    pure ⟨k, r, none, f⟩
+  else
+    match ct.toNat? with
+    | none => failure
+    | some c =>
+      let f ← many lbl (r * c)
+      pure ⟨k, r, some c, f⟩
+
+def showLbl : Lbl Int → String
+  | .num x => s!"n{x}"
+  | .nanv => "nan"
+  | .str s => s!"s{s}"
+  | .none_ => "none"
+
+def showLbls (l : List (Lbl Int)) : String := " ".intercalate (l.map showLbl)
+
+def showKind : ArrKind → String
+  | .number => "n" | .string => "s" | .object => "o"
+
+def showErr : LErr → String
+  | .typeError => "err type-error"
+  | .shape => "err shape"
+  | .unseen => "err unseen"
+  | .duplicate => "err duplicate"
+  | .classesMissing => "err classes-missing"
+  | .unsupported => "err unsupported"
+  | .noClasses => "err no-classes"
+  | .trueMissing => "err true-missing"
+  | .normalize => "err normalize"
+
+def showPairs (l : List (Nat × Nat)) : String := " ".intercalate (l.map (fun p => s!"{p.1},{p.2}"))
+
+/-- `lbl <isList> <ml|bad> <arr>` → `ok <mask> | <labeled idx> | <unlabeled idx>` (2-d: `i,j` pairs). -/
+def cmdLbl : P String := do
+  let isList ← bool
+  let ml ← mlArg
+  let a ← arr
+  match isUnlabeledArr isList ml a with
+  | .error e => pure (showErr e)
+  | .ok mu =>
+    match a.cols with
+    | none =>
+      match labeledIndices1 isList ml a, unlabeledIndices1 isList ml a with
+      | .ok li, .ok ui => pure s!"ok {showBools mu} | {showNats li} | {showNats ui}"
+      | .error e, _ => pure (showErr e)
+      | _, .error e => pure (showErr e)
+    | some c =>
+      match labeledIndices2 isList ml a c, unlabeledIndices2 isList ml a c with
+      | .ok li, .ok ui => pure s!"ok {showBools mu} | {showPairs li} | {showPairs ui}"
+      | .error e, _ => pure (showErr e)
+      | _, .error e => pure (showErr e)
+
+/-- `enc <ml|bad> <cg:0|1> [<kc> <K> classes…] <arr yfit> <arr ytr> <n> ints…`
+→ `<fit> ; <transform(ytr)> ; <inverse(transform(ytr))> ; <inverse(ints)>` -/
+def cmdEnc : P String := do
+  let ml ← mlArg
+  let cg ← bool
+  let classes ← (if cg then do
+      let kc ← kind
+      let cls ← listOf lbl
+      pure (some (kc, cls))
+    else pure none : P (Option (ArrKind × List (Lbl Int))))
+  let yfit ← arr
+  let ytr ← arr
+  let inv ← listOf int
+  match encoderFit ml classes yfit with
+  | .error e => pure (showErr e)
+  | .ok f =>
+    let sFit := s!"ok {showKind f.dkind} {showLbls f.classes}"
+    let tr := encoderTransform f ytr
+    let sTr := match tr with
+      | .ok e => "ok " ++ showInts e
+      | .error e => showErr e
+    let sRt := match tr with
+      | .ok e => (match encoderInverse f e with
+          | .ok l => "ok " ++ showLbls l
+          | .error e => showErr e)
+      | .error _ => "-"
+    let sInv := match encoderInverse f inv with
+      | .ok l => "ok " ++ showLbls l
+      | .error e => showErr e
+    pure s!"{sFit} ; {sTr} ; {sRt} ; {sInv}"
+
+/-- `argsortperm <n> labels…` → `np.argsort(classes)` -/
+def cmdArgsort : P String := do
+  let cls ← listOf lbl
+  pure (showNats (argsort cls))
+
+def handlers : List (String × P String) :=
+  [ ("lbl", cmdLbl), ("enc", cmdEnc), ("argsortperm", cmdArgsort) ]
 
 end Ska.Drv.Label
